@@ -266,6 +266,10 @@ def check(run):
     # (b) in-process pipeline under different seeds
     nblk = 120 if quick else 300
     texts = [H.gen_block_text(rng) for _ in range(nblk)]
+    from harness import blockgen
+    texts += blockgen.mem_heavy_blocks(rng.getrandbits(32), 150 if quick else 600)
+    texts += ["PUSH 1 DUP2 MSTORE PUSH 20 DUP3 KECCAK256 POP DUP2 MLOAD DUP4 MLOAD PUSH 2 DUP4 MSTORE",
+              "PUSH 0 PUSH 40 SLOAD SWAP1 MLOAD MLOAD AND MLOAD PUSH 20 MLOAD DUP2 MSTORE"]
     cdir = os.path.join(common.VERIF, "corpus", "C13")
     if os.path.isdir(cdir):
         for f in sorted(os.listdir(cdir)):
